@@ -8,6 +8,8 @@ use crate::wire::{self, Client, Server, StartError};
 use serde::{Deserialize, Serialize};
 use serde_json::Value;
 use std::path::Path;
+#[allow(unused_imports)]
+use crate::common::Tier;
 use std::time::Duration;
 
 #[derive(Clone, Debug, Serialize, Deserialize)]
@@ -16,6 +18,9 @@ pub struct Case {
     pub n: String,
     pub single: bool,
     pub with_options: bool,
+    /// 0 = multiplicity grid; 1 = a two-window upload with a window of 300 blocks; 2 = a 600-block window download with a stale ACK after the window (real elapsed time)
+    #[serde(default)]
+    pub scenario: u8,
 }
 
 fn copies_from(cl: &Client, first_wait: Duration, quiet: Duration) -> (Vec<Vec<u8>>, Option<std::net::SocketAddr>) {
@@ -138,6 +143,82 @@ fn run_case(dir: &Path, c: &Case) -> Result<Vec<&'static str>, (String, String)>
     Ok(vec!["multiplicity-checked"])
 }
 
+/// every copy of every ACK keeps the worker busy for N ms while the client already sends its next 300 blocks
+fn big_upload(srv: &Server, d: &Path, n: usize) -> Result<Vec<&'static str>, (String, String)> {
+    let data = content(1600 + n as u64, 64 * 700 + 11);
+    let cl = Client::new();
+    let opts = vec![("blksize".to_string(), "64".to_string()), ("windowsize".to_string(), "300".to_string())];
+    let neg = match wclient::start(&cl, srv.addr, true, "big.bin", &opts, Duration::from_secs(3)) {
+        wclient::Start::Accepted { neg, .. } => neg,
+        other => return Err(("harness".into(), format!("upload not accepted: {:?}", other))),
+    };
+    let mut srcs = vec![];
+    if let Err(e) = wclient::upload(&cl, &neg, &data, None, &mut srcs) {
+        return Err(("dup-mode-upload".into(), format!("N={}: a loss-free upload with windowsize 300 failed: {}", n, e)));
+    }
+    // the last ACK copies are still on their way; the file is complete at the first copy
+    let stored = std::fs::read(d.join("big.bin")).unwrap_or_default();
+    if stored != data {
+        return Err(("dup-mode-upload".into(), format!("N={}: stored {} bytes, sent {}", n, stored.len(), data.len())));
+    }
+    Ok(vec!["big-window-upload-in-duplicate-mode"])
+}
+
+/// sending one window takes longer than the negotiated timeout (600 blocks x (N+1) copies x 1 ms): a stale ACK right after
+/// the window must still not trigger a retransmission - the timeout counts from the end of the last transmission
+fn stale_ack_after_long_window(srv: &Server, d: &Path, n: usize) -> Result<Vec<&'static str>, (String, String)> {
+    let data = content(1601, 8 * 1200 + 3);
+    std::fs::write(d.join("long.bin"), &data).unwrap();
+    let cl = Client::new();
+    if (cl.force_rcvbuf(32 << 20) as u64) < (8 << 20) {
+        return Ok(vec!["timer-case-skipped-small-rcvbuf"]);
+    }
+    let opts = vec![("blksize".to_string(), "8".to_string()), ("windowsize".to_string(), "600".to_string()), ("timeout".to_string(), "1".to_string())];
+    let neg = match wclient::start(&cl, srv.addr, false, "long.bin", &opts, Duration::from_secs(3)) {
+        wclient::Start::Accepted { neg, .. } => neg,
+        other => return Err(("harness".into(), format!("download not accepted: {:?}", other))),
+    };
+    let mut copies = vec![0usize; 1203];
+    let collect = |upto: usize, copies: &mut Vec<usize>, limit: Duration| -> bool {
+        // until every block <= upto has arrived N+1 times
+        let t0 = std::time::Instant::now();
+        while t0.elapsed() < limit {
+            if let Some((b, _)) = cl.recv(Duration::from_millis(200)) {
+                if let RDec::Ok(RPacket::Data { block, .. }) = refcodec::decode(&b) {
+                    if (block as usize) < copies.len() {
+                        copies[block as usize] += 1;
+                    }
+                }
+            }
+            if (1..=upto).all(|k| copies[k] >= n + 1) {
+                return true;
+            }
+        }
+        false
+    };
+    if !collect(600, &mut copies, Duration::from_secs(8)) {
+        return Err(("harness".into(), "first window incomplete".into()));
+    }
+    cl.send(&refcodec::ack(600), neg.peer);
+    if !collect(1200, &mut copies, Duration::from_secs(8)) {
+        return Err(("harness".into(), "second window incomplete".into()));
+    }
+    // a stale duplicate of the previous acknowledgement, right after the window
+    cl.send(&refcodec::ack(600), neg.peer);
+    let extra = cl.drain(Duration::from_millis(400));
+    let resent: Vec<u16> = extra.iter().filter_map(|(b, _)| if let RDec::Ok(RPacket::Data { block, .. }) = refcodec::decode(b) { Some(block) } else { None }).collect();
+    cl.send(&refcodec::ack(1200), neg.peer);
+    let _ = collect(1201, &mut copies, Duration::from_secs(4));
+    cl.send(&refcodec::ack(1201), neg.peer);
+    if !resent.is_empty() {
+        return Err(("wire-retransmit-on-stale-ack".into(), format!("N={}: after a stale ACK 600 that followed a {}-datagram window the server re-sent {} DATA datagrams (first {:?}) although the timeout of 1 s had not elapsed since the end of the last transmission", n, 600 * (n + 1), resent.len(), &resent[..resent.len().min(4)])));
+    }
+    if let Some((k, cnt)) = (1..=1200).map(|k| (k, copies[k])).find(|(_, cnt)| *cnt != n + 1) {
+        return Err(("wire-S9".into(), format!("N={}: block {} arrived {} times, expected {}", n, k, cnt, n + 1)));
+    }
+    Ok(vec!["stale-ack-after-long-window"])
+}
+
 fn check_run(got: &[Vec<u8>], want: usize, what: &str, is: impl Fn(&RDec) -> bool) -> Result<(), (String, String)> {
     let all_same = got.windows(2).all(|w| w[0] == w[1]);
     if got.len() != want || !all_same || !got.first().map(|b| is(&refcodec::decode(b))).unwrap_or(false) {
@@ -180,9 +261,19 @@ pub fn run_wire(ctx: &Ctx) {
     for n in ["0", "1", "2", "3", "254", "255", "256", "-1", "1000", "x"] {
         for single in [false, true] {
             for with_options in [false, true] {
-                cases.push(Case { n: n.to_string(), single, with_options });
+                cases.push(Case { n: n.to_string(), single, with_options, scenario: 0 });
             }
         }
+    }
+    for single in [false, true] {
+        for n in ["2", "60"] {
+            cases.push(Case { n: n.to_string(), single, with_options: true, scenario: 1 });
+        }
+    }
+    cases.push(Case { n: "2".to_string(), single: false, with_options: true, scenario: 2 });
+    if ctx.tier == Tier::Thorough {
+        cases.push(Case { n: "2".to_string(), single: true, with_options: true, scenario: 2 });
+        cases.push(Case { n: "1".to_string(), single: false, with_options: true, scenario: 2 });
     }
     enumerate(ctx, "wire-duplicate-packets", &cases, true, |c, o| dirs.with(|d| judge(d, c, o)));
 }
